@@ -349,12 +349,12 @@ def objective(model, ds, values):
 # ------------------------------------------------------------------------------------------
 # one case
 
-def feature_of(case, spec):
+def feature_of(case, spec, exception=False):
     if case["labels"] == "int":
         return "integer identifiers"
     if spec["kind"] == "mixture_logistic":
         return "mixture model"
-    if case["source"] == "fitted":
+    if exception and case["source"] == "fitted":
         return f"freshly fitted {spec['kind']} model"
     return ""
 
@@ -390,7 +390,7 @@ def run_case(case, model=None):
         except (CaseTimeout, SpyError):
             raise
         except Exception as e:
-            problems.append((f"{site}|raises {type(e).__name__}|{feat}", f"{type(e).__name__}: {str(e)[:300]}"))
+            problems.append((f"{site}|raises {type(e).__name__}|{feature_of(case, spec, exception=True)}", f"{type(e).__name__}: {str(e)[:300]}"))
             return {"problems": problems, "outcome": f"raises:{type(e).__name__}", "nontrivial": False, "info": info}
 
     # ---- (A) keys, variables, shapes, finiteness
